@@ -41,6 +41,7 @@ import (
 	"github.com/tikv/client-go/v2/kv"
 	"github.com/tikv/client-go/v2/tikvrpc"
 	"github.com/tikv/client-go/v2/util"
+	"github.com/tikv/client-go/v2/util/codec"
 	pd "github.com/tikv/pd/client"
 	"github.com/tikv/pd/client/clients/router"
 	"github.com/tikv/pd/client/opt"
@@ -129,8 +130,12 @@ func c09Dump(c *RegionCache) string {
 		if r.isCacheTTLExpired(now) {
 			exp = 1
 		}
-		ents = append(ents, fmt.Sprintf("%s,%s,%s,%d,%d,%d,%d,%s", c09Ver(r.VerID()), c09hx(r.StartKey()), c09hx(r.EndKey()),
-			int(r.getStore().workTiKVIdx), exp, atomic.LoadInt32((*int32)(&r.invalidReason)), fl, c09Peers(r.meta.Peers)))
+		eps := make([]string, len(r.getStore().storeEpochs))
+		for i, x := range r.getStore().storeEpochs {
+			eps[i] = fmt.Sprint(x)
+		}
+		ents = append(ents, fmt.Sprintf("%s,%s,%s,%d,%d,%d,%d,%s,%s", c09Ver(r.VerID()), c09hx(r.StartKey()), c09hx(r.EndKey()),
+			int(r.getStore().workTiKVIdx), exp, atomic.LoadInt32((*int32)(&r.invalidReason)), fl, c09Peers(r.meta.Peers), strings.Join(eps, "/")))
 		return true
 	})
 	var regs []string
@@ -149,7 +154,16 @@ func c09Dump(c *RegionCache) string {
 		}
 		return strings.Join(l, ";")
 	}
-	return j(ents) + "\t" + j(regs) + "\t" + j(lat)
+	// store fail-epochs (only the non-zero ones)
+	var se []string
+	for id := uint64(1); id < 64; id++ {
+		if st, ok := c.stores.get(id); ok {
+			if ep := atomic.LoadUint32(&st.epoch); ep != 0 {
+				se = append(se, fmt.Sprintf("%d>%d", id, ep))
+			}
+		}
+	}
+	return j(ents) + "\t" + j(regs) + "\t" + j(lat) + "\t" + j(se)
 }
 
 // ---------------------------------------------------------------- PD wrapper (stale / reordered answers)
@@ -287,6 +301,15 @@ func (p *c09PD) BatchScanRegions(ctx context.Context, ranges []router.KeyRange, 
 	i := p.pick()
 	var rs []*router.Region
 	var last *router.Region
+	if i == len(p.snaps)-1 {
+		// current state: mocktikv's own PD client answers
+		in, _ := p.Client.BatchScanRegions(ctx, ranges, limit, opts...)
+		for _, r := range in {
+			rs = append(rs, &router.Region{Meta: r.Meta, Leader: r.Leader})
+		}
+		p.q("batch\t%s\t%d\t%s", c09Ranges(ranges), limit, c09Descs(rs))
+		return rs, nil
+	}
 	for _, kr := range ranges {
 		s := kr.StartKey
 		if last != nil {
@@ -331,6 +354,25 @@ type c09Env struct {
 	seed      int64
 	opIdx     int
 	nops      int
+	txn       bool // the cache runs behind CodecPDClient in txn mode: region keys are memcomparable-encoded at PD
+}
+
+func (e *c09Env) enc(k []byte) []byte {
+	if e.txn {
+		return codec.EncodeBytes(nil, k)
+	}
+	return k
+}
+func (e *c09Env) decMeta(m *metapb.Region) *metapb.Region {
+	m = proto.Clone(m).(*metapb.Region)
+	if e.txn {
+		s, t, err := e.cache.codec.DecodeRegionRange(m.StartKey, m.EndKey)
+		if err != nil {
+			panic(err)
+		}
+		m.StartKey, m.EndKey = s, t
+	}
+	return m
 }
 
 func c09NewCache(pdc pd.Client) *RegionCache {
@@ -347,8 +389,8 @@ func c09NewCache(pdc pd.Client) *RegionCache {
 
 var c09Mvcc mocktikv.MVCCStore
 
-func c09NewEnv(w *bufio.Writer, seed int64, nops int) *c09Env {
-	e := &c09Env{w: w, rng: rand.New(rand.NewSource(seed)), seed: seed, nops: nops, stopped: map[uint64]bool{}}
+func c09NewEnv(w *bufio.Writer, seed int64, nops int, txn bool) *c09Env {
+	e := &c09Env{w: w, rng: rand.New(rand.NewSource(seed)), seed: seed, nops: nops, stopped: map[uint64]bool{}, txn: txn}
 	if c09Mvcc == nil {
 		c09Mvcc = mocktikv.MustNewMVCCStore()
 	}
@@ -358,7 +400,13 @@ func c09NewEnv(w *bufio.Writer, seed int64, nops int) *c09Env {
 	e.stores = storeIDs
 	e.pdw = &c09PD{Client: mocktikv.NewPDClient(e.cluster), e: e, rng: rand.New(rand.NewSource(seed ^ 0x5eed))}
 	e.pdw.snapshot()
-	e.cache = c09NewCache(e.pdw)
+	if txn {
+		cpd := &CodecPDClient{e.pdw, apicodec.NewCodecV1(apicodec.ModeTxn)}
+		e.cache = c09NewCache(cpd)
+		e.cache.codec = cpd.GetCodec()
+	} else {
+		e.cache = c09NewCache(e.pdw)
+	}
 	e.rpc = mocktikv.NewRPCClient(e.cluster, c09Mvcc, nil)
 	return e
 }
@@ -368,7 +416,11 @@ func (e *c09Env) bo() *retry.Backoffer {
 }
 func (e *c09Env) x(format string, a ...interface{}) { fmt.Fprintf(e.w, "X\t"+format+"\n", a...) }
 func (e *c09Env) truth() {
-	fmt.Fprintf(e.w, "T\t%s\n", c09Descs(e.cluster.ScanRegions(nil, nil, 0)))
+	rs := e.cluster.ScanRegions(nil, nil, 0)
+	for _, r := range rs {
+		r.Meta = e.decMeta(r.Meta)
+	}
+	fmt.Fprintf(e.w, "T\t%s\n", c09Descs(rs))
 }
 func (e *c09Env) op(name string, args []string, f func() string) string {
 	if e.halted() {
@@ -488,7 +540,7 @@ type c09R struct {
 func (e *c09Env) regions() []c09R {
 	var out []c09R
 	for _, r := range e.cluster.ScanRegions(nil, nil, 0) {
-		out = append(out, c09R{r.Meta, r.Leader})
+		out = append(out, c09R{e.decMeta(r.Meta), r.Leader})
 	}
 	return out
 }
@@ -504,7 +556,7 @@ func (e *c09Env) split(r c09R, key []byte) {
 	newID := e.cluster.AllocID()
 	peerIDs := e.cluster.AllocIDs(len(r.meta.Peers))
 	lead := peerIDs[e.rng.Intn(len(peerIDs))]
-	e.cluster.SplitRaw(r.meta.Id, newID, key, peerIDs, lead)
+	e.cluster.SplitRaw(r.meta.Id, newID, e.enc(key), peerIDs, lead)
 	e.pool = append(e.pool, key)
 	e.topoDone("split %d new %d at %s", r.meta.Id, newID, c09hx(key))
 }
@@ -801,6 +853,16 @@ func (e *c09Env) opEpoch(v RegionVerID, storeID uint64, cur []*metapb.Region) bo
 	})
 	return retryFlag
 }
+func (e *c09Env) opSendFail(ctx *RPCContext, reload bool) {
+	rl := "0"
+	if reload {
+		rl = "1"
+	}
+	e.op("sendfail", []string{c09Ver(ctx.Region), fmt.Sprint(int(ctx.AccessIdx)), rl}, func() string {
+		e.cache.OnSendFail(e.bo(), ctx, reload, fmt.Errorf("send failed"))
+		return "ok"
+	})
+}
 func (e *c09Env) opCtx(v RegionVerID) *RPCContext {
 	var out *RPCContext
 	e.op("ctx", []string{c09Ver(v)}, func() string {
@@ -835,7 +897,7 @@ func (e *c09Env) round(k []byte) bool {
 	resp, err := e.rpc.SendRequest(context.Background(), ctx.Addr, req, time.Second)
 	if err != nil {
 		e.x("reply sendfail store %d", ctx.Store.StoreID())
-		e.opInval(ctx.Region, Other)
+		e.opSendFail(ctx, e.rng.Intn(4) == 0)
 		return false
 	}
 	var rerr *errorpb.Error
@@ -860,7 +922,11 @@ func (e *c09Env) round(k []byte) bool {
 		e.opInval(ctx.Region, Other)
 	case rerr.GetEpochNotMatch() != nil:
 		e.x("reply epochnotmatch")
-		e.opEpoch(ctx.Region, ctx.Store.StoreID(), rerr.GetEpochNotMatch().CurrentRegions)
+		var cur []*metapb.Region
+		for _, m := range rerr.GetEpochNotMatch().CurrentRegions {
+			cur = append(cur, e.decMeta(m)) // what codec.DecodeResponse does with the region error
+		}
+		e.opEpoch(ctx.Region, ctx.Store.StoreID(), cur)
 	default:
 		e.x("reply other %s", rerr.GetMessage())
 		e.opInval(ctx.Region, Other)
@@ -943,7 +1009,10 @@ func (e *c09Env) cacheOp() {
 		e.opGC()
 	case x < 80:
 		e.opClear()
-	case x < 90:
+	case x < 84:
+		// a send failure reported for an arbitrary peer of the entry
+		e.opSendFail(&RPCContext{Region: r.VerID(), Meta: r.meta, AccessIdx: AccessIndex(e.rng.Intn(len(r.meta.Peers))), AccessMode: tiKVOnly}, e.rng.Intn(3) == 0)
+	case x < 92:
 		// UpdateLeader with an arbitrary (possibly unknown) peer
 		var leader *metapb.Peer
 		y := e.rng.Intn(4)
@@ -961,7 +1030,7 @@ func (e *c09Env) cacheOp() {
 		var cur []*metapb.Region
 		for _, s := range snap {
 			if e.rng.Intn(3) == 0 || s.Meta.Id == r.GetID() {
-				cur = append(cur, proto.Clone(s.Meta).(*metapb.Region))
+				cur = append(cur, e.decMeta(s.Meta))
 			}
 		}
 		if e.rng.Intn(8) == 0 {
@@ -1096,8 +1165,8 @@ func (e *c09Env) seqMany() {
 		}
 	}
 	for _, k := range ks {
-		rs := e.cluster.ScanRegions(k, nil, 1)
-		e.cluster.SplitRaw(rs[0].Meta.Id, e.cluster.AllocID(), k, e.cluster.AllocIDs(len(rs[0].Meta.Peers)), 0)
+		rs := e.cluster.ScanRegions(e.enc(k), nil, 1)
+		e.cluster.SplitRaw(rs[0].Meta.Id, e.cluster.AllocID(), e.enc(k), e.cluster.AllocIDs(len(rs[0].Meta.Peers)), 0)
 	}
 	for _, r := range e.regions() {
 		e.cluster.ChangeLeader(r.meta.Id, r.meta.Peers[0].Id)
@@ -1208,8 +1277,13 @@ func (e *c09Env) seqUnit(n int) {
 
 // ---------------------------------------------------------------- entry point
 func c09RunSeq(w *bufio.Writer, class string, seed int64, nops int) {
-	fmt.Fprintf(w, "SEQ\t%s\t%d\n", class, seed)
-	e := c09NewEnv(w, seed, nops)
+	txn := seed%2 == 1 && class != "unit"
+	mode := "raw"
+	if txn {
+		mode = "txn"
+	}
+	fmt.Fprintf(w, "SEQ\t%s\t%d\t%s\n", class, seed, mode)
+	e := c09NewEnv(w, seed, nops, txn)
 	switch class {
 	case "rand":
 		e.seqRandom(30, []float64{0, 0.25, 0.5}[e.rng.Intn(3)], false)
@@ -1253,6 +1327,9 @@ func VerifC09Main(args []string) int {
 	w := bufio.NewWriterSize(os.Stdout, 1<<20)
 	defer w.Flush()
 	go c09Watchdog()
+	if len(args) >= 1 && args[0] == "probe-mockpd" {
+		return c09ProbeMockPD(w)
+	}
 	if len(args) >= 4 && args[0] == "run" {
 		seed, _ := strconv.ParseInt(args[2], 10, 64)
 		nops, _ := strconv.Atoi(args[3])
@@ -1276,5 +1353,32 @@ func VerifC09Main(args []string) int {
 			c09RunSeq(w, p.class, seed*1000000+int64(ci)*100000+int64(i), -1)
 		}
 	}
+	return 0
+}
+
+// c09ProbeMockPD: the public cache API over mocktikv's own PD client (no harness replacement): three regions
+// [-inf,b) [b,d) [d,+inf), cold cache, BatchLocateKeyRanges([a,a1), [e,+inf)).
+func c09ProbeMockPD(w *bufio.Writer) int {
+	cluster := mocktikv.NewCluster(mocktikv.MustNewMVCCStore())
+	storeIDs, _, regionID, _ := mocktikv.BootstrapWithMultiStores(cluster, 1)
+	_ = storeIDs
+	r2, r3 := cluster.AllocID(), cluster.AllocID()
+	cluster.SplitRaw(regionID, r2, []byte("b"), []uint64{cluster.AllocID()}, 0)
+	cluster.SplitRaw(r2, r3, []byte("d"), []uint64{cluster.AllocID()}, 0)
+	for _, r := range cluster.ScanRegions(nil, nil, 0) {
+		cluster.ChangeLeader(r.Meta.Id, r.Meta.Peers[0].Id)
+	}
+	pdc := mocktikv.NewPDClient(cluster)
+	cache := NewRegionCache(pdc)
+	defer cache.Close()
+	fmt.Fprintf(w, "truth %s\n", c09Descs(cluster.ScanRegions(nil, nil, 0)))
+	raw, _ := pdc.BatchScanRegions(withPDCircuitBreaker(context.Background()), []router.KeyRange{{StartKey: []byte("a"), EndKey: []byte("a1")}, {StartKey: []byte("e")}}, 128)
+	fmt.Fprintf(w, "mock pd BatchScanRegions([a,a1),[e,+inf)) = %s\n", c09Descs(raw))
+	bo := retry.NewBackofferWithVars(context.Background(), 600, nil)
+	locs, err := cache.BatchLocateKeyRanges(bo, []kv.KeyRange{{StartKey: []byte("a"), EndKey: []byte("a1")}, {StartKey: []byte("e")}})
+	fmt.Fprintf(w, "PROBE\tBatchLocateKeyRanges([a,a1),[e,+inf))\t%s\terr=%v\n", c09Locs(locs), err)
+	// the same ranges one by one work
+	l1, e1 := cache.BatchLocateKeyRanges(retry.NewBackofferWithVars(context.Background(), 2000, nil), []kv.KeyRange{{StartKey: []byte("e")}})
+	fmt.Fprintf(w, "BatchLocateKeyRanges([e,+inf)) = %s err=%v\n", c09Locs(l1), e1)
 	return 0
 }
